@@ -19,6 +19,11 @@ claimed = {
  "C13": e1("A watch-only member (flag at every validator position, or outside the list) is explored in closed-world runs and alone against the unconstrained E2 environment alphabet; the oracle is zero Broadcast / Sign / SetData calls in every state.", "4 C13"),
  "C16": e1("Timed mode with the maximum-block-time extension: 170 scenarios (ratios, N, instants at which a transaction appears, anti-MEV) each explored with <=k deviations in delivery/notification order; oracle on virtual-time stamps of proposals, subscription calls and absence of ChangeView/RecoveryRequest; control group without the extension.", "4 C16"),
  "C17": dict(level="model_checking", engine="E5", technique="stateless exploration of delivery schedules (deviation-bounded) of the real simulation program under testing/synctest with harness-controlled channels and virtual time", text="The real package main of internal/simulation (real Run goroutines, Broadcast, ProcessBlock, timer.Timer) is executed in a synctest bubble where the harness alone decides which pending payload is delivered next and when a virtual second passes; all schedules with <=1 (quick) / <=2 (thorough) deviations (queue jump, hold until quiescence, early second) are executed for validator counts 1..7, watchers, blocked validator; plus a free-running -race pass.", note="Trusted: go1.26.8 testing/synctest; the independence argument for node goroutines between harness steps (they share only the channels the harness serialises).", design="4 C17"),
+ "C05": e1("E2 exploration of one real node over two heights with the twin (differential) oracles evaluated in every state reached by a Reset or ledger skip, plus closed-world 3-height runs; monitors for single decision, quiescence until Reset (whole-struct fingerprint), clean re-initialisation and cache hygiene. The differential oracle needs no hand-written expected value: the same node is compared with itself under a permuted history and with a freshly started node.", "4 C05"),
+ "C09": e1("Fault enumeration in timed mode: every silent validator / silent primary set, every cut set of N=4 at every instant of the default schedule for three durations, every restart instant, then <=k delivery deviations in the synchronous period; bounded-liveness oracle counted in timer expiries; a stuck terminal state is reported with its heights and views.", "4 C09"),
+ "C11": e1("In every state reached by the E2 exploration (three roles, anti-MEV off/on/switching, changing validator sets) every inadmissible input of the nine classes named in the property is applied to the real node and the whole-struct fingerprint, timer calls and broadcasts are compared before/after; every API call of every engine runs under recover (panic watch).", "4 C11"),
+ "C12": e1("E2 exploration of a backup with every non-empty subset of a 3-transaction proposal missing, verification accepting or rejecting, a cached next-view proposal with its own missing set, and transactions reaching the pool before or together with the notification; the reference model 'requested minus supplied' decides when an answer is due.", "4 C12"),
+ "C14": dict(level="model_checking", engine="E4", technique="explicit-state exploration (deviation-bounded E1 timed paths and E2 breadth-first states) with every explored path re-executed under five shifted virtual epochs and compared observation by observation (twin runs)", text="Clock-shift invariance is a relational property; each explored path is replayed by choice index on fresh instances under epochs from -30y to +200y around the wall clock and the per-node sequences of timer arguments, payload summaries and accepted blocks must agree with timestamps shifted by exactly the offset; nondeterminism between two identical runs is reported as wall-clock dependence.", note="Trusted: virtual timer, observation normalisation (timestamps relative to the epoch). " + E1N, design="4 C14"),
  "C06": dict(level="exploration", engine="E3", technique="exhaustive enumeration of the finite argument domain on the real Context (small-scope model checking of a pure function)", text="F, M, GetPrimaryIndex are pure functions of (N, height, view); the whole domain N=1..65535 x 256 views x boundary heights is enumerated (thorough) and compared with independent big-integer arithmetic, so the claim is exhaustive for the stated domain rather than sampled.", note="Trusted: the independent arithmetic in the checker; for N above the Start threshold the Context is populated through exported fields (the functions read nothing else).", design="4 C06"),
  "C15": dict(level="exploration", engine="E3", technique="exhaustive enumeration of a finite input grid, each point one real Start/OnReceive/Reset/OnTimeout drive of the implementation", text="The full cross product of increments, previous timestamps, clock readings, pool lists, heights, views, N, anti-MEV and dynamic-block-time settings is driven through the real primary code path and every broadcast proposal is compared with the constructor arguments, the Context and the primary's own block.", note="Trusted: harness application (pool, virtual clock); reading of 'whenever that is larger' documented in evidence assumptions.", design="4 C15"),
  "C19": dict(level="exploration", engine="E6", technique="small-scope exhaustive enumeration (all payloads/blocks over tiny field domains, all pairs, all single-byte corruptions, all byte strings to a length) on the real reference codec/crypto/merkle code", text="Hash binding, codec round trip, decoder robustness, signature and Merkle properties are universally quantified over inputs; within the small scope every input is enumerated and compared pairwise / against the original, so nothing is sampled.", note="Trusted: Go gob/ecdsa; content keys built by the checker; one process (gob type ids). Known finding D8 listed in known_findings.json.", design="4 C19"),
@@ -52,6 +57,8 @@ m = {
            "source_commits": hook_commit, "add_only": True},
  "engines": [
    {"name":"E1","path":"/verif/mc","serves_properties":[c for c in claimed if claimed[c]['engine']=="E1"],"kind_free_text":E1},
+   {"name":"E2","path":"/verif/mc/e2.go","serves_properties":["C02","C03","C04","C05","C07","C10","C11","C12","C13","C14"],"kind_free_text":"open-environment breadth-first explorer: one real node against an unconstrained finite alphabet"},
+   {"name":"E4","path":"/verif/mc/checks_timed.go","serves_properties":["C14"],"kind_free_text":"twin-run (epoch shift) comparison over explored paths"},
    {"name":"E3","path":"/verif/mc/checks_e3.go","serves_properties":[c for c in claimed if claimed[c]['engine']=="E3"],"kind_free_text":"finite-domain enumerators driving the real library"},
    {"name":"E6","path":"/verif/e5/codecmc","serves_properties":["C19"],"kind_free_text":"small-scope codec/crypto/merkle enumerator (Go test binary, one process)"},
    {"name":"E7","path":"/verif/e7/tlc_matrix.py","serves_properties":["C20"],"kind_free_text":"TLC 1.8.0 matrix driver"},
